@@ -139,7 +139,9 @@ add("C06", "other",
     "Partial. Proved in Coq about the lexer model (PropC06.v; the model is compared token for token with the Go lexer in C14's "
     "run): one call of Next never runs out of steps and keeps the lexer well formed, so every call of a scan terminates; the state "
     "table forces progress at end of input; spans lie inside the input; only the end state can abort and it is never fed a rune. "
-    "Parser totality is open. Decided each run by running parser.Parse + reportError + processInput and the -eval path of the "
+    "About the grammar model (compared with parser.Parse in C07's and this run): on every input it returns trees or rejects and "
+    "never exhausts its fuel, because every successful parse of an expression, statement or block consumes a token "
+    "(C06_parser_total, two mutual inductions over all nonterminals). Decided each run by running parser.Parse + reportError + processInput and the -eval path of the "
     "binary on hostile hand-picked inputs (nesting 10^4 / 10^5, 400-digit literals, NUL, invalid UTF-8), all strings up to length 3 "
     "(4 thorough) over a class alphabet and thousands of random inputs, with a time limit, panic recovery and crash detection: no "
     "hang, no abort, span inside input, report printable, nothing of a rejected input executed. K3 (Go stack limit) is a known finding.",
